@@ -169,11 +169,27 @@ pub fn read<const N: usize, Ns>(reader: impl Read) -> Result<Mappings<N, Ns>> {
 	Ok(mappings)
 }
 
+/// Reverts [`escape`]: `\\` is a backslash and `\n` is a line break. A backslash before any other character is kept as it is.
 pub(crate) fn unescape(s: String) -> String {
-	s.replace("\\n", "\n")
+	let mut out = String::with_capacity(s.len());
+	let mut chars = s.chars();
+	while let Some(c) = chars.next() {
+		if c != '\\' {
+			out.push(c);
+			continue;
+		}
+		match chars.next() {
+			Some('n') => out.push('\n'),
+			Some('\\') => out.push('\\'),
+			Some(other) => { out.push('\\'); out.push(other); },
+			None => out.push('\\'),
+		}
+	}
+	out
 }
+/// Escapes line breaks as `\n`, and therefore also the backslash as `\\`, so that a comment fits on one line and [`unescape`] gives it back.
 pub(crate) fn escape(s: &str) -> String {
-	s.replace('\n', "\\n")
+	s.replace('\\', "\\\\").replace('\n', "\\n")
 }
 
 fn add_comment(javadoc: &mut Option<JavadocMapping>, line: TinyLine) -> Result<()> {
